@@ -132,9 +132,10 @@ Print Assumptions set_zero_partial.
 
 (* ... and is FALSE in the direct regime (fewer than THRESHOLD_SMALL entries, or a non-floating
    dtype) as long as the direct body is the single unguarded assignment
-   out.data[:] = a*x1.data + b*x2.data  (is_guarded direct_body = false, the CURRENT source):
+   out.data[:] = a*x1.data + b*x2.data  (is_guarded direct_body = false: the source BEFORE the
+   fix d3867d7; vacuous for the current source, kept as a statement about the old variant):
    0*y + 0*y is evaluated and NaN / inf in y survive set_zero().
-   Recorded finding C01/set_zero-nan-survives-direct. *)
+   Finding C01/set_zero-nan-survives-direct (fixed). *)
 Theorem set_zero_direct_refuted :
   forall (T : Type) (N : Num T) (bi : blasinfo),
   is_guarded direct_body = false ->
@@ -146,8 +147,8 @@ Proof. exact @set_zero_direct_counterexample. Qed.
 (* which variant the regenerated source is: *)
 Example direct_body_variant : is_guarded direct_body = false \/ is_guarded direct_body = true.
 Proof. vm_compute. first [left; reflexivity | right; reflexivity]. Qed.
-(* once the direct body tests its scalars (proposed_fixes/C01_direct-zero-scalars.diff) the full
-   statement holds in the direct regime too; vacuous for the current source *)
+(* the direct body of the current source tests its scalars (fix d3867d7): the full statement
+   holds in the direct regime too -- this is the LIVE theorem *)
 Theorem set_zero_direct_repaired :
   forall (T : Type) (N : Num T) (F : NumField T) (bi : blasinfo) (i : nat) (s : store (option T)),
   is_guarded direct_body = true ->
